@@ -180,6 +180,16 @@ func (brexecEngine) Gen(r *rand.Rand, idx int, tier string) any {
 	if chance(r, 35) && w.StUpdated > 0 {
 		w.StUpdatedReady = r.Intn(w.StUpdated + 1)
 	}
+	if in.FT != nil && w.StUpdated > 0 && chance(r, 60) {
+		// around the edge of the failure threshold, which is a share of the updated pods, not of the whole workload
+		v := in.FT.K8s()
+		allowed, _ := intstr.GetScaledValueFromIntOrPercent(&v, w.StUpdated, true)
+		edge := maxInt(planned, 1) - allowed + pick(r, -1, 0, 0, 1)
+		if chance(r, 30) {
+			edge = 1 + r.Intn(maxInt(edge, 1))
+		}
+		w.StUpdatedReady = minInt(maxInt(edge, 0), w.StUpdated)
+	}
 	st.Updated, st.UpdatedReady = w.StUpdated, w.StUpdatedReady
 	if chance(r, 30) {
 		st.Updated, st.UpdatedReady = r.Intn(n+1), 0
@@ -199,6 +209,23 @@ func (brexecEngine) Gen(r *rand.Rand, idx int, tier string) any {
 		w.Partition = mk(Int(r.Intn(n + 1)))
 	}
 	w.Paused = chance(r, 20)
+	if chance(r, 12) && n >= 10 && st.Batch < len(in.Plan) && planned > 0 {
+		// a healthy release being verified, with a percentage failure threshold and as many unready updated pods as it
+		// just allows / just forbids: the threshold is a share of the updated pods
+		ft := pick(r, Pct(10), Pct(20), Pct(30), Pct(50))
+		in.FT = &ft
+		in.Deleting = false
+		st.Phase, st.State = "Progressing", pick(r, "Verifying", "Ready")
+		st.ReadyTime = st.State == "Ready"
+		st.Stable, st.Update, st.Hash, st.ObsReplicas, st.ObsGen = "rev-v1", "rev-v2", "current", n, in.Generation
+		w.Exists, w.Ctl, w.ObsGen, w.UpdateRev, w.Paused = true, "mine", w.Gen, "rev-v2", false
+		w.StUpdated = minInt(planned+pick(r, 0, 0, 1), n)
+		v := ft.K8s()
+		allowed, _ := intstr.GetScaledValueFromIntOrPercent(&v, w.StUpdated, true)
+		w.StUpdatedReady = minInt(maxInt(planned-allowed+pick(r, -1, -1, 0, 0, 1), 1), w.StUpdated)
+		st.Updated, st.UpdatedReady = w.StUpdated, w.StUpdatedReady
+		w.Partition = mk(Int(n - planned))
+	}
 	return in
 }
 
